@@ -1333,6 +1333,21 @@ def bw_view_check(ctx, w, bw, live, rng, step, full):
                 ctx.fail("c18.bw.view", "probe:%s" % step[0], dict(w, step=step, query=repr(q)),
                          "searcher %r / model %r" % (sorted(gotk, key=skey), sorted(expk, key=skey)))
                 return False
+        # every step: the whole term range of each field, through the term-enumeration path (terms_from) of the buffer's
+        # in-memory codec and of the flushed segments alike
+        from whoosh import query as _q
+        for qq in (_q.Prefix("t", ""), _q.TermRange("u", None, None), _q.Prefix("k", ""), _q.NumericRange("n", None, None),
+                   _q.TermRange("t", "a", "zzzz")):
+            try:
+                expk = model.expected_keys(qq, live)
+            except model.Undecided:
+                continue
+            ctx.count("c18.bw.whole_field_probes")
+            gotk = set(hit["key"] for hit in s.search(qq, limit=None))
+            if gotk != expk:
+                ctx.fail("c18.bw.view", "whole-field-probe:%s:%s" % (type(qq).__name__, step[0]), dict(w, step=step, query=repr(qq)),
+                         "searcher %r / model %r" % (sorted(gotk, key=skey), sorted(expk, key=skey)))
+                return False
     if full:
         ctx.count("c18.bw.dump_checks")
         rd = model_dump(w["opts"], live)
